@@ -48,9 +48,11 @@ def build_mir(log):
         if os.path.exists(os.path.join(d, "repo")):
             shutil.rmtree(os.path.join(d, "repo"))
         shutil.copytree(os.path.join(r, "src"), os.path.join(d, "repo", "src"))
-        # keep the cache small: drop other digests
-        for other in os.listdir(CACHE):
-            if other != dig:
+        # keep the cache small: drop other digests, but never one that a concurrent check may still be
+        # reading (younger than two hours) and keep the eight most recent in any case
+        others = sorted((o for o in os.listdir(CACHE) if o != dig), key=lambda o: -os.path.getmtime(os.path.join(CACHE, o)))
+        for other in others[8:]:
+            if time.time() - os.path.getmtime(os.path.join(CACHE, other)) > 7200:
                 shutil.rmtree(os.path.join(CACHE, other), ignore_errors=True)
         return mir, os.path.join(d, "repo", "src")
     finally:
